@@ -99,24 +99,13 @@ Definition placed (e : evrec) : bool :=
     match final_of (ts_id v) with Some (Releasing, _) => true | _ => false end).
 Definition law_placed : bool := forallb placed (li_evs L).
 
-(* 103: the policy plugins *)
+(* 103: the policy plugins, on the DECIDING tier.  The votes are re-computed from what the harness observed when the
+   action handed the candidates to the vote (candidate order, ready count of each candidate's job, allocation of
+   its queue, pop order of the victims queue) and from the pre-cycle objects (priorities, classes, minMember,
+   guarantee; deserved from the plugin's record): which candidates each configured voter lets go.  The deciding
+   tier is the FIRST tier with a voter whose voters agree on at least one candidate; a tier is skipped only
+   when its voters agree on nothing.  Every evicted pod must be in the agreement of the deciding tier. *)
 Definition req_of (t : task_spec) : res := mk_req (ts_cpu t) (ts_mem t) (ts_gpu t).
-
-Definition same_job_evictions (e : evrec) (j : positive) : Z :=
-  Z.of_nat (length (filter (fun i => match spec_task i with Some u => bool_decide (ts_job u = j) | None => false end) (ev_order e))).
-
-(* evictions of the attempt from queue q that precede victim v in the candidate order *)
-Fixpoint earlier_evicted (e : evrec) (q : positive) (v : positive) (obs : list cobs) : list task_spec :=
-  match obs with
-  | [] => []
-  | o :: r =>
-    if bool_decide (o_id o = v) then []
-    else match spec_task (o_id o) with
-         | Some u => if bool_decide (o_id o ∈ ev_order e) && bool_decide (queue_of_task u = Some q)
-                     then u :: earlier_evicted e q v r else earlier_evicted e q v r
-         | None => earlier_evicted e q v r
-         end
-  end.
 
 Definition lim_hi (q : positive) : option res :=
   match filter (fun l => bool_decide (ql_id l = q)) (li_lims L) with l :: _ => Some (ql_hi l) | [] => None end.
@@ -130,56 +119,86 @@ Definition spec_guarantee (q : positive) : res :=
 Definition clim_of (q : positive) : option clim_spec :=
   match filter (fun l => bool_decide (cl_id l = q)) (li_clims L) with l :: _ => Some l | [] => None end.
 
-(* evictions of the attempt from queue q that the victims queue popped before v *)
-Fixpoint popped_before (e : evrec) (q : positive) (v : positive) (order : list positive) : list task_spec :=
+(* gang: candidates in the order handed over; a job gives pods away while its ready count is above minMember *)
+Fixpoint gang_sim (occ : gmap positive Z) (obs : list cobs) : list positive :=
+  match obs with
+  | [] => []
+  | o :: r =>
+    match spec_task (o_id o) with
+    | None => gang_sim occ r
+    | Some t =>
+      match spec_job (ts_job t) with
+      | None => gang_sim occ r
+      | Some j =>
+        let c := default (o_ready o) (occ !! ts_job t) in
+        if bool_decide (js_min j < c) then o_id o :: gang_sim (<[ts_job t := c - 1]> occ) r
+        else gang_sim (<[ts_job t := c]> occ) r
+      end
+    end
+  end.
+
+Definition prio_lets_go (p v : task_spec) : bool :=
+  if bool_decide (ts_job v = ts_job p) then bool_decide (ts_prio v < ts_prio p)
+  else bool_decide (j_prio (ts_job v) < j_prio (ts_job p)).
+Definition conf_lets_go (v : task_spec) : bool := (t_class (ts_id v) =? 0) && negb (job_sys sp (ts_job v)).
+
+(* proportion: running allocation per queue, a victim while NOT (allocation <= deserved) *)
+Fixpoint prop_sim (al : gmap positive res) (obs : list cobs) : list positive :=
+  match obs with
+  | [] => []
+  | o :: r =>
+    match spec_task (o_id o) with
+    | None => prop_sim al r
+    | Some t =>
+      match queue_of_task t with
+      | None => prop_sim al r
+      | Some q =>
+        match lim_hi q with
+        | None => prop_sim al r
+        | Some d =>
+          let a := default (o_qalloc o) (al !! q) in
+          if negb (less_equal (sp_eps sp) a d DZero) then o_id o :: prop_sim (<[q := sub a (req_of t)]> al) r
+          else prop_sim (<[q := a]> al) r
+        end
+      end
+    end
+  end.
+
+(* capacity: the candidates in the pop order of the victims queue *)
+Fixpoint cap_sim (e : evrec) (p : task_spec) (al : gmap positive res) (order : list positive) : list positive :=
   match order with
   | [] => []
   | i :: r =>
-    if bool_decide (i = v) then []
-    else match spec_task i with
-         | Some u => if bool_decide (i ∈ ev_order e) && bool_decide (queue_of_task u = Some q)
-                     then u :: popped_before e q v r else popped_before e q v r
-         | None => popped_before e q v r
-         end
-  end.
-Definition evicted_of_queue (e : evrec) (q : positive) : list task_spec :=
-  omap (fun i => match spec_task i with
-                 | Some u => if bool_decide (queue_of_task u = Some q) then Some u else None
-                 | None => None end) (ev_order e).
-Definition minus (a : res) (l : list task_spec) : res := fold_left (fun a u => sub a (req_of u)) l a.
-
-Definition cond (e : evrec) (v p : task_spec) (k : pkind) : bool :=
-  match k with
-  | KGang =>
-    match spec_job (ts_job v), obs_of e (ts_id v) with
-    | Some j, Some o => bool_decide (js_min j <= o_ready o - same_job_evictions e (ts_job v))
-    | _, _ => false
-    end
-  | KPrio =>
-    if bool_decide (ts_job v = ts_job p) then bool_decide (ts_prio v < ts_prio p)
-    else bool_decide (j_prio (ts_job v) < j_prio (ts_job p))
-  | KConf => (t_class (ts_id v) =? 0) && negb (job_sys sp (ts_job v))
-  | KProp =>
-    match queue_of_task v, obs_of e (ts_id v) with
-    | Some q, Some o =>
-      match lim_hi q with
-      | Some d =>
-        let taken := fold_left (fun a u => sub a (req_of u)) (earlier_evicted e q (ts_id v) (ev_obs e)) (o_qalloc o) in
-        negb (less_equal (sp_eps sp) taken d DZero)
-      | None => false
+    match spec_task i, obs_of e i with
+    | Some t, Some o =>
+      match queue_of_task t with
+      | None => cap_sim e p al r
+      | Some q =>
+        match clim_of q with
+        | None => cap_sim e p al r
+        | Some cl =>
+          if negb (intersects (sp_eps sp) true (req_of t) (req_of p)) then cap_sim e p al r else
+          let a := default (o_qalloc o) (al !! q) in
+          if negb (less_equal (sp_eps sp) (spec_guarantee q) (sub a (req_of t)) DZero) then cap_sim e p (<[q := a]> al) r else
+          if negb (intersects (sp_eps sp) false (req_of t) (cl_des cl)) || gp_rel (sp_eps sp) a (cl_des cl) (req_of t)
+          then i :: cap_sim e p (<[q := sub a (req_of t)]> al) r
+          else cap_sim e p (<[q := a]> al) r
+        end
       end
-    | _, _ => false
+    | _, _ => cap_sim e p al r
     end
-  | KCap =>
-    match queue_of_task v, obs_of e (ts_id v), match queue_of_task v with Some q => clim_of q | None => None end with
-    | Some q, Some o, Some cl =>
-      (* keeps its guarantee: guarantee <= allocation observed at the vote - ALL evictions of the attempt from q *)
-      less_equal (sp_eps sp) (spec_guarantee q) (minus (o_qalloc o) (evicted_of_queue e q)) DZero &&
-      (* above deserved as the code defines it, when it was popped *)
-      (let a := minus (o_qalloc o) (popped_before e q (ts_id v) (ev_qorder e)) in
-       negb (intersects (sp_eps sp) false (req_of v) (cl_des cl)) || gp_rel (sp_eps sp) a (cl_des cl) (req_of v))
-    | _, _, _ => false
-    end
+  end.
+Definition cap_reclaimer_known (p : task_spec) : bool :=
+  match queue_of_task p with Some q => bool_decide (is_Some (clim_of q)) | None => false end.
+
+(* the candidates a configured voter lets go *)
+Definition lets_go (e : evrec) (p : task_spec) (k : pkind) : list positive :=
+  match k with
+  | KGang => gang_sim ∅ (ev_obs e)
+  | KPrio => map o_id (filter (fun o => match spec_task (o_id o) with Some v => prio_lets_go p v | None => false end) (ev_obs e))
+  | KConf => map o_id (filter (fun o => match spec_task (o_id o) with Some v => conf_lets_go v | None => false end) (ev_obs e))
+  | KProp => prop_sim ∅ (ev_obs e)
+  | KCap => if cap_reclaimer_known p then cap_sim e p ∅ (ev_qorder e) else []
   end.
 
 (* does the plugin vote in this action *)
@@ -187,28 +206,46 @@ Definition votes_in (action : Z) (pl : plug) : bool :=
   if action =? 1 then p_pre pl && negb (bool_decide (p_kind pl = KProp)) && negb (bool_decide (p_kind pl = KCap))
   else p_rec pl && negb (bool_decide (p_kind pl = KPrio)).
 
-Definition tier_accepts (e : evrec) (v p : task_spec) (t : list plug) : bool :=
-  existsb (votes_in (ev_action e)) t &&
-  forallb (fun pl => implb (votes_in (ev_action e) pl) (cond e v p (p_kind pl))) t.
+Definition voters (e : evrec) (t : list plug) : list plug := filter (fun pl => votes_in (ev_action e) pl) t.
+(* the candidates all voters of the tier let go *)
+Definition agreement_of (e : evrec) (p : task_spec) (t : list plug) : list positive :=
+  filter (fun i => forallb (fun pl => bool_decide (i ∈ lets_go e p (p_kind pl))) (voters e t)) (map o_id (ev_obs e)).
 
-(* some tier with a voter accepts the victim with all its voters (the deciding tier does) *)
+(* tier walk: (tiers that were skipped because their voters agreed on nothing, agreement of the deciding tier) *)
+Fixpoint walk (e : evrec) (p : task_spec) (ts : list (list plug)) (skipped : list (list plug))
+    : option (list (list plug) * list positive) :=
+  match ts with
+  | [] => None
+  | t :: r =>
+    match voters e t with
+    | [] => walk e p r skipped
+    | _ => match agreement_of e p t with
+           | [] => walk e p r (skipped ++ [t])
+           | ag => Some (skipped, ag)
+           end
+    end
+  end.
+
 Definition respects (e : evrec) : bool :=
-  with_pair e (fun v p => existsb (tier_accepts e v p) (sp_tiers sp)).
+  with_pair e (fun v p =>
+    match walk e p (sp_tiers sp) [] with
+    | Some (_, ag) => bool_decide (ev_victim e ∈ ag)
+    | None => false
+    end).
 Definition law_plugins : bool := forallb respects (li_evs L).
 
-(* 104: full strength - a plugin that was consulted before the accepting tier took part in the
-   decision as well: the victim is accepted by all voters of some tier AND by every voter of every
-   tier in front of it.  (The tier walk falls through to the next tier when the voters of a tier
-   agree on nothing; victims the lower tier then grants may have been vetoed above.) *)
-Fixpoint accepts_prefix (e : evrec) (v p : task_spec) (ts : list (list plug)) : bool :=
-  match ts with
-  | [] => false
-  | t :: r =>
-    tier_accepts e v p t ||
-    (forallb (fun pl => implb (votes_in (ev_action e) pl) (cond e v p (p_kind pl))) t && accepts_prefix e v p r)
-  end.
+(* 104: full strength - a plugin that was consulted before the deciding tier took part in the decision as well: the
+   victim must also be let go by every voter of every tier that was SKIPPED in front of the deciding tier.  The
+   law answers true when 103 fails (that violation is reported by 103), so a failure of 104 is exactly: the tier
+   walk did what the code documents, and a voter of a skipped earlier tier had vetoed the victim. *)
 Definition respects_all (e : evrec) : bool :=
-  with_pair e (fun v p => accepts_prefix e v p (sp_tiers sp)).
+  with_pair e (fun v p =>
+    match walk e p (sp_tiers sp) [] with
+    | Some (skipped, ag) =>
+      negb (bool_decide (ev_victim e ∈ ag)) ||
+      forallb (fun t => forallb (fun pl => bool_decide (ev_victim e ∈ lets_go e p (p_kind pl))) (voters e t)) skipped
+    | None => true
+    end).
 Definition law_plugins_all : bool := forallb respects_all (li_evs L).
 
 (* 105: a job statement is committed only for a job that is JobPipelined (inter-job preemption and
@@ -251,7 +288,12 @@ Definition law_refused : bool := forallb refused_ok (sp_refuse sp).
    pods that were there before.) *)
 Definition held (t : task_spec) : bool :=
   match final_of (ts_id t) with
-  | Some (st, _) => match st with Running | Bound | Binding | Allocated | Pipelined => true | _ => false end
+  | Some (st, _) =>
+    match st with
+    | Running | Bound | Binding | Allocated => true
+    | Pipelined => bool_decide (ts_status t = Pending)    (* pipelined in THIS cycle: in the plugin's ledger *)
+    | _ => false
+    end
   | None => false
   end.
 Definition evicted_ids : list positive := map ev_victim (li_evs L).
